@@ -32,6 +32,8 @@ def parseConnectHead (level : Nat) (data : List Nat) : PRes (Nat × Nat) :=
   if ver ≠ level then .err .UnsupportedProtocolVersion else
   if data.length < 7 + 1 then .err .MalformedPacket else
   idx "connect::parse:flags" data 7 fun flags =>
+  -- reserved bit, Will QoS 3, Will QoS / Will Retain without Will Flag (since b95b779)
+  if flags % 2 ≠ 0 ∨ flags / 8 % 4 = 3 ∨ (flags / 4 % 2 = 0 ∧ flags / 8 % 8 ≠ 0) then .err .MalformedPacket else
   if data.length < 8 + 2 then .err .MalformedPacket else
   idx "connect::parse:keep_alive[0]" data 8 fun k0 =>
   idx "connect::parse:keep_alive[1]" data 9 fun k1 =>
@@ -146,12 +148,14 @@ structure Publish3 where
 deriving DecidableEq, Repr, Inhabited
 
 /-- topic and optional packet id, common to both PUBLISH parsers: `(topic, pid)`, consumed = cursor -/
-def parsePublishHead (pw flags : Nat) (data : List Nat) : PRes (List Nat × Option Nat) :=
+def parsePublishHead (v5 : Bool) (pw flags : Nat) (data : List Nat) : PRes (List Nat × Option Nat) :=
   let qos := flags / 2 % 4
   if qos = 3 then .err .MalformedPacket else
   sliceFrom "publish::parse:data_arc[cursor..]" data 0 fun d =>
   (decStr d).bind fun topic c =>
   let cursor := c
+  -- wildcard topic names rejected; v3.1.1 also rejects the empty topic (since 5455204 / 6429d75)
+  if (!v5 && topic.isEmpty) || topic.contains 35 || topic.contains 43 then .err .MalformedPacket else
   if qos ≠ 0 then
     if data.length < cursor + pw then .err .MalformedPacket else
     slice "publish::parse:data_arc[cursor..cursor+buffer_size]" data cursor (cursor + pw) fun idb =>
@@ -160,7 +164,7 @@ def parsePublishHead (pw flags : Nat) (data : List Nat) : PRes (List Nat × Opti
   else .ok (topic, none) cursor
 
 def Publish3.parse (pw flags : Nat) (data : List Nat) : PRes Publish3 :=
-  (parsePublishHead pw flags data).bind fun tp cursor =>
+  (parsePublishHead false pw flags data).bind fun tp cursor =>
   usub "v3_1_1::publish::parse:data_arc.len()-cursor" data.length cursor fun payloadLen =>
   sliceFrom "v3_1_1::publish::parse:ArcPayload::new" data cursor fun payload =>
   let remaining := strSize tp.1 + (if tp.2.isSome then pw else 0) + payloadLen
@@ -249,10 +253,11 @@ def topicsSize (ts : List (List Nat)) : Nat := (ts.map strSize).sum
 def entriesEncode (es : List SubEntry) : List Nat := (es.map SubEntry.encode).flatten
 def topicsEncode (ts : List (List Nat)) : List Nat := (ts.map encStr).flatten
 
-/-- packet id at the front of the body: value, consumed = `pw` (id 0 is *not* rejected here) -/
+/-- packet id at the front of the body: value, consumed = `pw`; id 0 rejected (since 9f5ac85) -/
 def parseIdFront (site : String) (pw : Nat) (data : List Nat) : PRes Nat :=
   if data.length < pw then .err .MalformedPacket else
-  slice site data 0 pw fun idb => .ok (beNat idb) pw
+  slice site data 0 pw fun idb =>
+  if allZero idb then .err .MalformedPacket else .ok (beNat idb) pw
 
 structure Subscribe3 where
   remLen : Nat
